@@ -30,7 +30,7 @@ func sectionEngine(t *testing.T, r *ev.Run) {
 
 func engineCrypto(t *testing.T, r *ev.Run) {
 	for _, strict := range []bool{true, false} {
-		for _, backend := range []string{"fs", "", "vaultkv", "external", "azure-keyvault", "bogus", "FS", " "} {
+		for _, backend := range []string{"fs", "", "vaultkv", "external", "azure-keyvault", "bogus", "FS", " ", "\t", "\n", " \r\n", " fs", "fs "} {
 			dir := t.TempDir()
 			se := storage.New()
 			c := crypto.NewCryptoInstance(se)
@@ -41,6 +41,9 @@ func engineCrypto(t *testing.T, r *ev.Run) {
 			err := c.Configure(core.ServerConfig{Strictmode: strict, Datadir: dir})
 			r.Eval(ev.Key([]any{"crypto", strict, backend}))
 			r.Outcome(fmt.Sprintf("crypto.Configure strict=%v storage=%q: %s", strict, backend, okErr(err)))
+			if blank(backend) && backend != "" && strict && err == nil {
+				r.Violation("C20|engine|crypto-implicit|strict-accepted|blank", fmt.Sprintf("crypto.Configure accepts a blank key storage back-end (%q) in strict mode", backend), nil)
+			}
 			if backend == "" {
 				if strict && err == nil {
 					r.Violation("C20|engine|crypto-implicit|strict-accepted", "crypto.Configure accepts an implicit key storage back-end in strict mode", nil)
@@ -55,7 +58,8 @@ func engineCrypto(t *testing.T, r *ev.Run) {
 
 func engineStorage(t *testing.T, r *ev.Run) {
 	for _, strict := range []bool{true, false} {
-		for _, conn := range []string{"", "sqlite:file:{DIR}/x.db?_pragma=foreign_keys(1)&journal_mode(WAL)", "sqlite:file::memory:?cache=shared", "bogus:whatever"} {
+		for _, conn := range []string{"", "sqlite:file:{DIR}/x.db?_pragma=foreign_keys(1)&journal_mode(WAL)", "sqlite:file::memory:?cache=shared", "bogus:whatever",
+			" ", "  ", "\t", "\n", "\t ", " \r\n"} {
 			dir := t.TempDir()
 			se := storage.New()
 			se.(core.Injectable).Config().(*storage.Config).SQL.ConnectionString = strings.ReplaceAll(conn, "{DIR}", dir)
@@ -67,6 +71,10 @@ func engineStorage(t *testing.T, r *ev.Run) {
 			}
 			r.Eval(ev.Key([]any{"storage", strict, conn}))
 			r.Outcome(fmt.Sprintf("storage.Configure strict=%v connection=%q: %s implicit-file=%v", strict, conn, okErr(err), implicitFile))
+			if blank(conn) && conn != "" && strict && (err == nil || implicitFile) {
+				// as sent, a connection string of white space names no database
+				r.Violation("C20|engine|sqlite-implicit|strict-accepted|blank", fmt.Sprintf("storage.Configure takes a blank connection string (%q) for the implicit SQLite database in strict mode (error: %v, <datadir>/sqlite.db created: %v)", conn, err, implicitFile), nil)
+			}
 			if conn == "" {
 				if strict && (err == nil || implicitFile) {
 					r.Violation("C20|engine|sqlite-implicit|strict-accepted", "storage.Configure falls back to the implicit SQLite database in strict mode", nil)
